@@ -64,7 +64,8 @@ pub const PERCENTS: &[&str] = &[
 pub const DATALINES: &[&str] = &[
     "datalines;", "cards;", "lines;", "datalines4;", "cards4;", "lines4;", "DataLines ;",
     "datalines\n;", "datalines", ";;;;", ";;;", ";;", "datalines;\n1 2\n;", "cards4;\na;b\n;;;;",
-    "datalines4;\n1 2;;;a", "datalines;\n1\n;\n* c;",
+    "datalines4;\n1 2;;;a", "datalines;\n1\n;\n* c;", "datalines44;\n1;2\n;;;;", "cards444;", "LINES44 ;", "datalines4x;",
+    "lines\n= 3;", "cards\n\n x;", "datalines4 \n,a;",
 ];
 
 pub const COMMENTS: &[&str] = &[
@@ -254,6 +255,10 @@ pub fn vocabulary() -> &'static Vec<String> {
             let mac = crate::oracle::shapes::is_macro_kw_type(*t);
             for k in kws {
                 let k = if mac { format!("%{}", k.to_ascii_lowercase()) } else { k.to_ascii_lowercase() };
+                // the keyword, and near misses that must stay plain words
+                v.push(format!("{k}4"));
+                v.push(format!("{k}44"));
+                v.push(format!("{k}_"));
                 v.push(k);
             }
         }
